@@ -322,6 +322,42 @@ pub fn two_modifier_jobs(need: Need) -> Vec<Job> {
   jobs
 }
 
+/// M3: three chords under three different real modifiers, two of them absorbing with outputs that are not keystrokes, the
+/// third a keystroke on the final key of the second: absorbed keys recorded under two triggers while a third mapping fires.
+pub fn three_modifier_jobs(need: Need) -> Vec<Job> {
+  use crate::keys::{Mapping, Repeat};
+  use KeyCode::*;
+  let mut jobs = vec![];
+  let m = |from: &[KeyCode], to: &[KeyCode], absorbing: &[KeyCode]| Mapping { from: from.to_vec(), to: to.to_vec(), repeat: Repeat::Normal, absorbing: absorbing.to_vec() };
+  for k1 in [CAPSLOCK, T] { for o1 in [vec![LEFTSHIFT], vec![]] { for o2 in [vec![], vec![RIGHTALT]] { for abs in 1..4u8 { for (i3, m3) in [m(&[LEFTCTRL, T], &[X], &[]), m(&[LEFTCTRL, T], &[LEFTCTRL, X], &[]), m(&[T], &[X], &[])].iter().enumerate() { for m3_first in [false, true] {
+    let m1 = m(&[LEFTSHIFT, k1], &o1, if abs & 1 != 0 { &[LEFTSHIFT] } else { &[] });
+    let m2 = m(&[LEFTALT, T], &o2, if abs & 2 != 0 { &[LEFTALT] } else { &[] });
+    let layout = Layout { mappings: if m3_first { vec![m3.clone(), m1, m2] } else { vec![m1, m2, m3.clone()] } };
+    if !layout_ok(&layout, need) { continue; }
+    let mut alphabet = vec![LEFTSHIFT, LEFTALT, LEFTCTRL, T]; if k1 != T { alphabet.push(k1); }
+    jobs.push(Job::Fixed { name: format!("M3-{:?}-{}-{}-{}-{}-{}", k1, o1.len(), o2.len(), abs, i3, m3_first), layout, alphabet, n: 4, alpha_rule: "the trigger keys of the three chords" });
+  } } } } } }
+  jobs
+}
+
+/// K5: every ordered pair of key codes (k1 mapped by k1->[D], k2 foreign), both held: a lookup structure that confuses two
+/// key codes (a hash or table collision, a truncated code) is found whatever the pair is.
+pub fn key_pair_jobs(need: Need) -> Vec<Job> {
+  use crate::keys::{Mapping, Repeat};
+  use num_traits::FromPrimitive;
+  use KeyCode::*;
+  let keys: Vec<KeyCode> = (0u16..0x300).filter_map(KeyCode::from_u16).collect();
+  let mut jobs = vec![];
+  for k1 in &keys { for k2 in &keys {
+    if k1 == k2 { continue; }
+    let d = if *k1 != F24 && *k2 != F24 { F24 } else if *k1 != F23 && *k2 != F23 { F23 } else { F22 };
+    let layout = Layout { mappings: vec![Mapping { from: vec![*k1], to: vec![d], repeat: Repeat::Normal, absorbing: vec![] }] };
+    if !layout_ok(&layout, need) { continue; }
+    jobs.push(Job::Fixed { name: format!("K5-{:?}-{:?}", k1, k2), layout, alphabet: vec![*k1, *k2], n: 2, alpha_rule: "the mapped key and the foreign key" });
+  } }
+  jobs
+}
+
 /// S4/S5: four or five mappings ending in the SAME key A (triggers drawn with repetition from [A], [CAPSLOCK,A],
 /// [LEFTSHIFT,A], [B,A]), each with its own output key: precedence among many candidates, re-defined triggers.
 pub fn same_final_jobs(need: Need, k: usize) -> Vec<Job> {
@@ -399,6 +435,14 @@ pub fn run(ctx: &Ctx) -> Outcome {
     let oj = shared_output_jobs(plan.need);
     gen_rules.push(json!({"family": "O3", "what": "three single-key mappings on A,B,J with outputs drawn with repetition from [X],[Y],[X,Y],[Y,X],[LEFTSHIFT,X],[LEFTSHIFT,Y],[LEFTSHIFT,X,Y],[LEFTSHIFT,Y,X],[X,Y,Z],[LEFTCTRL,LEFTSHIFT,X]; the third Normal or Disabled; alphabet A,B,J,X", "layouts": oj.len(), "bound_keys_held": 3}));
     jobs.extend(oj);
+    let m3 = three_modifier_jobs(plan.need);
+    gen_rules.push(json!({"family": "M3", "what": "[LEFTSHIFT,k1]->o1 (k1 in {CAPSLOCK,T}, o1 in {[LEFTSHIFT],[]}), [LEFTALT,T]->o2 (o2 in {[],[RIGHTALT]}), either or both absorbing their modifier, and a third mapping [LEFTCTRL,T]->[X] / [LEFTCTRL,T]->[LEFTCTRL,X] / T->[X] listed last or first; alphabet = the trigger keys", "layouts": m3.len(), "bound_keys_held": 4}));
+    jobs.extend(m3);
+    if matches!(id, "C05" | "C03" | "AALL") {
+      let k5 = key_pair_jobs(plan.need);
+      gen_rules.push(json!({"family": "K5", "what": "every ordered pair (k1, k2) of distinct key codes: layout k1->[F24], alphabet {k1, k2}", "layouts": k5.len(), "bound_keys_held": 2}));
+      jobs.extend(k5);
+    }
     let mj = two_modifier_jobs(plan.need);
     gen_rules.push(json!({"family": "M2", "what": "[LEFTSHIFT,A]->o1 and [LEFTCTRL,k2]->o2, k2 in {LEFTALT,B}, o1 in {[LEFTSHIFT,A],[X],[LEFTSHIFT,X],[]}, o2 in {[],[RIGHTALT],[LEFTSHIFT],[Y],[LEFTCTRL,Y]}, either or both absorbing their modifier, first Normal or Disabled, both orders; alphabet = the four trigger keys", "layouts": mj.len(), "bound_keys_held": 3}));
     jobs.extend(mj);
